@@ -45,6 +45,7 @@ Definition same_place (a b : sfile) : bool := (fi_off (sfi_f a) =? fi_off (sfi_f
 Fixpoint pairwise (l r : list sfile) : bool :=
   match l with [] => true | a :: l' => match r with [] => false | b :: r' => same_place a b && pairwise l' r' end end.
 
+Fixpoint take_while {A} (p : A -> bool) (l : list A) : list A := match l with [] => [] | x :: r => if p x then x :: take_while p r else [] end.
 (* cabd_can_merge_folders *)
 (* None: the model cannot follow (a folder's merge file is no longer in its list - a dangling pointer in C) *)
 Definition can_merge (lfol rfol : sfolder) (lfiles rfiles : list sfile) : option bool :=
@@ -52,8 +53,10 @@ Definition can_merge (lfol rfol : sfolder) (lfiles rfiles : list sfile) : option
   if CAB_FOLDERMAX <? sf_nblocks lfol + sf_nblocks rfol then Some false else
   match sf_mnext lfol, sf_mprev rfol with
   | Some lid, Some rid =>
-    let ls := from_file lid lfiles in let rs := from_file rid rfiles in
-    match ls, rs with
+    let ls := from_file lid lfiles in let rs0 := from_file rid rfiles in
+    (* only entries of rfol itself are compared (the entries of a folder are contiguous in the list) *)
+    let rs := take_while (fun f => oid_eqb (sfi_folder f) (sf_id rfol)) rs0 in
+    match ls, rs0 with
     | [], _ | _, [] => None
     | _, _ => Some (if pairwise ls rs then true else existsb (fun a => existsb (same_place a) rs) ls)
     end
